@@ -7,6 +7,7 @@ un-twinned function) returns for those concrete inputs.  A mismatch means the en
 
     python -m symx.selftest            exit 0: all agree; exit 3: a primitive disagrees (harness error)
 """
+import logging
 import sys
 import time
 
@@ -16,6 +17,7 @@ import z3
 from .arr import NPProxy, fresh
 from .core import SB, SC, SV, Abort, Budget, Explorer, ShimGap, concretize
 
+logging.disable(logging.CRITICAL)   # the real helper functions log at INFO/WARNING
 NP = NPProxy()
 MAXP = 60
 
